@@ -23,6 +23,10 @@ if _deps not in sys.path:
 import icontract  # noqa: E402
 
 EVALS: Counter = Counter()
+# pre-call observers: name -> list of callables(self, *args), run right before the real
+# (public, synchronous) method executes -- lets a monitor sample state at the exact instant
+# of a critical section that is entered from inside a blocking call
+OBS: dict[str, list] = {}
 _FAILS: list[tuple[str, dict]] = []
 _ERRORS: list[str] = []
 _installed = False
@@ -183,20 +187,22 @@ def _ms_post(self, OLD):  # noqa: ANN001, ANN202, N803
         s0 = OLD.s
         s = self.statistics()
         ok = (
-            s.current_buffer_used <= s.max_buffer_size
-            and s.current_buffer_used >= 0
-            and s.open_send_streams >= 0
-            and s.open_receive_streams >= 0
-            and abs(s.open_send_streams - s0.open_send_streams) <= 1
-            and abs(s.open_receive_streams - s0.open_receive_streams) <= 1
-            # nobody stays queued on a side whose peer side is fully closed
-            and not (s.open_send_streams == 0 and s.tasks_waiting_receive > 0)
-            # (senders woken by the last receive-side close deregister themselves when they
-            # resume, so tasks_waiting_send may legitimately be > 0 right after that close)
+            0 <= s.current_buffer_used <= s.max_buffer_size
             # items are never buffered while a receiver is waiting
             and not (s.current_buffer_used > 0 and s.tasks_waiting_receive > 0)
         )
-        return _rec("memstream", ok, {"before": tuple(s0), "after": tuple(s)})
+        _rec("memstream", ok, {"before": tuple(s0), "after": tuple(s)})
+        ok2 = (
+            s.open_send_streams >= 0
+            and s.open_receive_streams >= 0
+            and abs(s.open_send_streams - s0.open_send_streams) <= 1
+            and abs(s.open_receive_streams - s0.open_receive_streams) <= 1
+            # nobody stays queued for an item once the send side is fully closed
+            # (senders woken by the last receive-side close deregister themselves when
+            # they resume, so tasks_waiting_send may be > 0 right after that close)
+            and not (s.open_send_streams == 0 and s.tasks_waiting_receive > 0)
+        )
+        return _rec("memstream_close", ok2, {"before": tuple(s0), "after": tuple(s)})
     except Exception as e:  # noqa: BLE001
         EVALS["contract_error"] += 1
         _ERRORS.append(repr(e))
@@ -218,6 +224,18 @@ def _ms_post_i(self, item, OLD):  # noqa: ANN001, ANN202, N803
 
 def _wrap(f, snap, post):  # noqa: ANN001, ANN202
     return icontract.snapshot(snap, name="s")(icontract.ensure(post, error=ContractBroken)(f))
+
+
+def _observed(name: str, f):  # noqa: ANN001, ANN202
+    def w(self, *a, **k):  # noqa: ANN001, ANN002, ANN003, ANN202
+        for cb in OBS.get(name, ()):
+            cb(self, *a)
+
+        return f(self, *a, **k)
+
+    w.__name__ = getattr(f, "__name__", name)
+    w.__doc__ = getattr(f, "__doc__", None)
+    return w
 
 
 def install() -> None:
@@ -253,9 +271,11 @@ def install() -> None:
     K.acquire_nowait = _wrap(K.acquire_nowait, _lock_snap, _lock_post)
 
     R, W = M.MemoryObjectReceiveStream, M.MemoryObjectSendStream
-    R.receive_nowait = _wrap(R.receive_nowait, _ms_snap, _ms_post)
+    R.receive_nowait = _observed(
+        "receive_nowait", _wrap(R.receive_nowait, _ms_snap, _ms_post)
+    )
     R.close = _wrap(R.close, _ms_snap, _ms_post)
-    W.send_nowait = _wrap(W.send_nowait, _ms_snap_i, _ms_post_i)
+    W.send_nowait = _observed("send_nowait", _wrap(W.send_nowait, _ms_snap_i, _ms_post_i))
     W.close = _wrap(W.close, _ms_snap, _ms_post)
 
 
